@@ -17,12 +17,13 @@ Qed.
 Lemma many_abs l : out_abs (many l) = fmany (map snd l).
 Proof. destruct l; reflexivity. Qed.
 
-Lemma step_refines q o :
-  q_abs (fst (q_step q o)) = fst (f_step (q_abs q) o) /\
-  out_abs (snd (q_step q o)) = snd (f_step (q_abs q) o).
+Lemma step_refines st o :
+  q_abs (fst (fst (q_step st o))) = fst (f_step (q_abs (fst st)) o) /\
+  out_abs (snd (q_step st o)) = snd (f_step (q_abs (fst st)) o).
 Proof.
-  destruct o as [s| |k| |k|]; cbn [q_step f_step].
-  - cbn [fst snd]. unfold q_push, q_abs. rewrite map_app. split; reflexivity.
+  destruct st as [q last].
+  destruct o as [s| |k| |k|]; cbn [q_step f_step fst snd].
+  - unfold q_push, q_abs. cbn [fst snd]. rewrite map_app. split; reflexivity.
   - destruct q as [|e q]; cbn; split; reflexivity.
   - unfold q_popn. cbn [fst snd]. rewrite many_abs, <- peekn_abs.
     unfold q_abs at 1. rewrite map_skipn, map_length. split; reflexivity.
@@ -37,19 +38,19 @@ Fixpoint f_run (f : fifo) (ops : list qop) : list (fout * fifo) :=
   | o :: ops' => let '(f', r) := f_step f o in (r, f') :: f_run f' ops'
   end.
 
-Lemma run_refines ops : forall q,
-  map (fun rq => (out_abs (fst rq), q_abs (snd rq))) (q_run q ops) = f_run (q_abs q) ops.
+Lemma run_refines ops : forall st,
+  map (fun rq => (out_abs (fst rq), q_abs (snd rq))) (q_run st ops) = f_run (q_abs (fst st)) ops.
 Proof.
-  induction ops as [|o ops IH]; intros q; [reflexivity|].
-  cbn [q_run f_run]. pose proof (step_refines q o) as [Hq Ho].
-  destruct (q_step q o) as [q' r]. destruct (f_step (q_abs q) o) as [f' r'].
+  induction ops as [|o ops IH]; intros st; [reflexivity|].
+  cbn [q_run f_run]. pose proof (step_refines st o) as [Hq Ho].
+  destruct (q_step st o) as [st' r]. destruct (f_step (q_abs (fst st)) o) as [f' r'].
   cbn [fst snd] in *. cbn [map fst snd]. rewrite Ho, Hq, IH, Hq. reflexivity.
 Qed.
 
 (* peeks never modify the queue *)
 Definition is_peek (o : qop) : bool :=
   match o with QPeek | QPeekN _ | QEmpty => true | _ => false end.
-Lemma peek_pure q o : is_peek o = true -> fst (q_step q o) = q.
+Lemma peek_pure st o : is_peek o = true -> fst (q_step st o) = st.
 Proof. destruct o; cbn; intros H; try discriminate; reflexivity. Qed.
 
 (* strictly increasing ids *)
@@ -95,38 +96,77 @@ Proof.
   eapply Forall_impl; [|apply sorted_snoc_lt; exact Hs]. cbn; intros; lia.
 Qed.
 
-Lemma push_sorted q s : ids_sorted q -> ids_sorted (q_push q s).
+(* invariant of the queue object: ids strictly increasing and none above lastId *)
+Definition q_inv (st : qstate) : Prop :=
+  ids_sorted (fst st) /\ Forall (fun y => y <= snd st) (map fst (fst st)).
+
+Lemma push_id_gt st : q_inv st ->
+  Forall (fun y => y < push_id st) (map fst (fst st)) /\ snd st < push_id st.
 Proof.
-  intros Hs. pose proof (sorted_all_le_last q Hs) as Hl.
-  unfold q_push, ids_sorted. rewrite map_app. cbn [map fst].
-  destruct (last_id q) as [i|].
-  - apply sorted_app_one; [exact Hs|].
-    eapply Forall_impl; [|exact Hl]. cbn; intros; lia.
-  - subst q. cbn. constructor; constructor.
+  intros [Hs Hb]. pose proof (sorted_all_le_last (fst st) Hs) as Hl.
+  unfold push_id. destruct (last_id (fst st)) as [i|].
+  - destruct (snd st + 1 <=? i) eqn:E.
+    + apply Z.leb_le in E. split; [|lia]. eapply Forall_impl; [|exact Hl]. cbn; intros; lia.
+    + apply Z.leb_gt in E. split; [|lia]. eapply Forall_impl; [|exact Hb]. cbn; intros; lia.
+  - rewrite Hl. split; [constructor|lia].
 Qed.
 
-Lemma step_sorted q o : ids_sorted q -> ids_sorted (fst (q_step q o)).
+Lemma push_inv st s : q_inv st -> q_inv (q_push st s).
 Proof.
-  intros Hs. destruct o as [s| |k| |k|]; cbn [q_step fst]; try exact Hs.
-  - apply push_sorted; exact Hs.
-  - destruct q as [|e q]; cbn; [exact Hs|]. unfold ids_sorted in *. cbn in Hs.
-    inversion Hs; assumption.
-  - unfold q_popn, ids_sorted. cbn [fst]. rewrite map_skipn. apply sorted_skipn. exact Hs.
+  intros H. pose proof (push_id_gt st H) as [Hlt Hs]. destruct H as [Hs0 Hb].
+  unfold q_push, q_inv, ids_sorted. cbn [fst snd]. rewrite map_app. cbn [map fst]. split.
+  - apply sorted_app_one; assumption.
+  - apply Forall_app; split; [|constructor; [lia|constructor]].
+    eapply Forall_impl; [|exact Hlt]. cbn; intros; lia.
 Qed.
 
-Lemma run_sorted ops : forall q, ids_sorted q ->
-  Forall (fun rq => ids_sorted (snd rq)) (q_run q ops).
+Lemma Forall_skipn {A} (P : A -> Prop) n l : Forall P l -> Forall P (skipn n l).
 Proof.
-  induction ops as [|o ops IH]; intros q Hs; [constructor|].
-  cbn [q_run]. pose proof (step_sorted q o Hs) as H1.
-  destruct (q_step q o) as [q' r]. cbn [fst] in H1.
-  constructor; [exact H1|apply IH; exact H1].
+  revert l; induction n as [|n IH]; intros l H; [exact H|].
+  destruct l as [|a l]; [exact H|]. cbn. apply IH. inversion H; assumption.
 Qed.
 
-(* insertion order: the queue is always a contiguous suffix-of-prefix of pushes;
-   stated through the FIFO abstraction above. *)
+Lemma step_inv st o : q_inv st -> q_inv (fst (q_step st o)).
+Proof.
+  intros H. destruct o as [s| |k| |k|]; cbn [q_step fst]; try exact H.
+  - apply push_inv; exact H.
+  - destruct H as [Hs Hb]. destruct st as [[|e q] last]; cbn; [split; assumption|].
+    unfold q_inv, ids_sorted in *. cbn in *. inversion Hs; inversion Hb; subst. split; assumption.
+  - destruct H as [Hs Hb]. unfold q_popn, q_inv, ids_sorted in *. cbn [fst snd].
+    rewrite map_skipn. split; [apply sorted_skipn; exact Hs|apply Forall_skipn; exact Hb].
+Qed.
 
-(* the pushed entry gets 1 on an empty queue, last+1 otherwise *)
-Lemma push_id q s :
-  last_id (q_push q s) = Some (match last_id q with None => 1 | Some i => i + 1 end).
-Proof. unfold q_push. apply last_id_app. Qed.
+Lemma init_inv : q_inv q_init.
+Proof. split; constructor. Qed.
+
+Lemma run_sorted ops : forall st, q_inv st ->
+  Forall (fun rq => ids_sorted (snd rq)) (q_run st ops).
+Proof.
+  induction ops as [|o ops IH]; intros st Hs; [constructor|].
+  cbn [q_run]. pose proof (step_inv st o Hs) as H1.
+  destruct (q_step st o) as [st' r]. cbn [fst] in H1.
+  constructor; [exact (proj1 H1)|apply IH; exact H1].
+Qed.
+
+(* numbering never restarts: every id assigned by a push is above lastId, which never decreases *)
+Lemma push_id_fresh st s : q_inv st -> snd st < snd (q_push st s) /\ last_id (fst (q_push st s)) = Some (snd (q_push st s)).
+Proof.
+  intros H. pose proof (push_id_gt st H) as [_ Hs]. unfold q_push. cbn [fst snd].
+  split; [exact Hs|apply last_id_app].
+Qed.
+
+Lemma last_id_in q i : last_id q = Some i -> In i (map fst q).
+Proof.
+  destruct q as [|e q] using rev_ind; [discriminate|]. destruct e as [a s].
+  rewrite last_id_app. intros H. inversion H; subst. rewrite map_app. apply in_or_app. right. left. reflexivity.
+Qed.
+
+(* from the initial queue the first id is 1 and ids are consecutive in push order *)
+Lemma push_id_init_inv st : q_inv st -> push_id st = snd st + 1.
+Proof.
+  intros [Hs Hb]. pose proof (sorted_all_le_last (fst st) Hs) as Hl.
+  unfold push_id. destruct (last_id (fst st)) as [i|] eqn:E; [|reflexivity].
+  destruct (snd st + 1 <=? i) eqn:E2; [|reflexivity]. apply Z.leb_le in E2. exfalso.
+  pose proof (last_id_in _ _ E) as Hin.
+  rewrite Forall_forall in Hb. specialize (Hb i Hin). lia.
+Qed.
